@@ -13,8 +13,8 @@ CHECKS = {
  "C17": (True,
   "For every vector pair/triple inside the stated bounds (length <= 3, Hamming <= 4; integer-lattice or magnitude-ranged finite f32/f64 values) "
   "CBMC proves closed form, non-negativity, identity, bit-exact symmetry and the triangle inequality of the real Euclidian/Manhattan/Hamming/"
-  "Mahalanobis code, the exact arguments Minkowski hands to powf, and rejection of mismatched lengths. Bounded: nothing is claimed for longer vectors.",
-  "Trusts Kani/CBMC's MIR translation and float model (sqrt as modelled by CBMC on normal-range f32); Minkowski values rest on std powf (only its arguments are decided); Mahalanobis only for diagonal covariance.",
+  "Mahalanobis code, the value of Minkowski of order 1..3 against its closed form (through a semantic powf stub: exact products, sqrt, cube-root specification), order 1 = Manhattan, and rejection of mismatched lengths and of order 0. Bounded: nothing is claimed for longer vectors.",
+  "Trusts Kani/CBMC's MIR translation and float model (sqrt as modelled by CBMC on normal-range f32); Minkowski: powf is replaced by its mathematical meaning for the exponents 1, 2, 3, 1/2, 1/3 (std powf itself is trusted); Mahalanobis only for diagonal covariance.",
   "DESIGN.md 6/C17"),
  "C18": (True,
   "For every number of columns p <= 4 (6 thorough), every choice of up to 3-4 categorical columns at symbolic positions and symbolic category counts 1..3, "
